@@ -126,15 +126,104 @@ def _impl_worker(case):
         return {'harness_error': '%s: %s' % (type(e).__name__, e)}
 
 
+def _impl_chunk(chunk):
+    return [_impl_worker(c) for c in chunk]
+
+
+def _init_worker():
+    os.setpgrp()          # own process group: a stuck worker is killed together with the pools it forked
+
+
+class _CaseTimeout(BaseException):
+    pass
+
+
+def _alarm(signum, frame):
+    raise _CaseTimeout()
+
+
+def _run_with_alarm(case, seconds):
+    import signal
+    old = signal.signal(signal.SIGALRM, _alarm)
+    signal.alarm(seconds)
+    try:
+        return _MOD.run_impl(case)
+    except _CaseTimeout:
+        for ch in mp.active_children():       # whatever the stuck call forked
+            try:
+                ch.kill()
+            except Exception:
+                pass
+        return {'harness_timeout': 'no result within %d s (run alone in the main process)' % seconds}
+    except BaseException as e:
+        return {'harness_error': '%s: %s' % (type(e).__name__, e)}
+    finally:
+        signal.alarm(0)
+        signal.signal(signal.SIGALRM, old)
+
+
+STALL_S = int(os.environ.get('VERIF_STALL_S', '150'))      # no chunk finished for this long = workers are stuck
+CASE_S = int(os.environ.get('VERIF_CASE_S', '120'))
+
+
+def unusable(o):
+    """Outcome the harness could not obtain (driver crashed, or the run did not come back in time)."""
+    return isinstance(o, dict) and ('harness_error' in o or 'harness_timeout' in o)
+
+
 def run_impl_all(mod, cases):
+    """Run the implementation on all cases in forked workers. Watchdog: the library's own process pools can
+    dead-lock when one of their workers is killed (e.g. by the OOM killer under load); if no chunk completes for
+    STALL_S seconds the workers (and everything they forked) are killed and the unfinished cases are re-run one
+    by one in this process under a per-case alarm. A case that still does not return is recorded as
+    `harness_timeout` (counted in the evidence, no verdict): none of the properties is about termination."""
     global _MOD
     _MOD = mod
-    if getattr(mod, 'PARALLEL', True) and len(cases) > 32:
-        from concurrent.futures import ProcessPoolExecutor
-        ctx = mp.get_context('fork')
-        with ProcessPoolExecutor(max_workers=min(16, os.cpu_count() or 4), mp_context=ctx) as pool:
-            return list(pool.map(_impl_worker, cases, chunksize=max(1, len(cases) // 64)))
-    return [_impl_worker(c) for c in cases]
+    if not (getattr(mod, 'PARALLEL', True) and len(cases) > 32):
+        return [_run_with_alarm(c, STALL_S) for c in cases]
+    import signal
+    from concurrent.futures import ProcessPoolExecutor, wait, FIRST_COMPLETED
+    ctx = mp.get_context('fork')
+    cs = max(1, len(cases) // 64)
+    chunks = [(i, cases[i:i + cs]) for i in range(0, len(cases), cs)]
+    outs = [None] * len(cases)
+    pool = ProcessPoolExecutor(max_workers=min(16, os.cpu_count() or 4), mp_context=ctx, initializer=_init_worker)
+    stalled = False
+    try:
+        futs = {pool.submit(_impl_chunk, ch): i for i, ch in chunks}
+        pending = set(futs)
+        while pending:
+            done, pending = wait(pending, timeout=STALL_S, return_when=FIRST_COMPLETED)
+            if not done:
+                stalled = True
+                break
+            for f in done:
+                try:
+                    res = f.result()
+                except BaseException:
+                    continue            # broken pool: re-run below
+                i = futs[f]
+                outs[i:i + len(res)] = res
+    finally:
+        if stalled:
+            for pr in list(getattr(pool, '_processes', {}).values()):
+                try:
+                    os.killpg(pr.pid, signal.SIGKILL)
+                except Exception:
+                    try:
+                        pr.kill()
+                    except Exception:
+                        pass
+        try:
+            pool.shutdown(wait=not stalled, cancel_futures=True)
+        except Exception:
+            pass
+    missing = [i for i, o in enumerate(outs) if o is None]
+    if missing:
+        sys.stderr.write('watchdog: %d case(s) did not come back from the workers; re-running them one by one\n' % len(missing))
+        for i in missing:
+            outs[i] = _run_with_alarm(cases[i], CASE_S)
+    return outs
 
 
 # ----------------------------------------------------------------------------------------
@@ -200,7 +289,7 @@ def shrink(mod, prop, case, kind):
         nxt = None
         if kind == 'oracle':
             for c, o in zip(cands, outs):
-                if 'harness_error' not in o and mod.oracle(c, o):
+                if not unusable(o) and mod.oracle(c, o):
                     nxt = c
                     break
         else:
@@ -261,14 +350,17 @@ def run_check(prop, tier, seed):
     herr = [(i, o['harness_error']) for i, o in enumerate(outs) if isinstance(o, dict) and 'harness_error' in o]
     oracle_fail = []
     for i, (c, o) in enumerate(zip(cases, outs)):
-        if isinstance(o, dict) and 'harness_error' in o:
+        if unusable(o):
             continue
         msg = mod.oracle(c, o)
         if msg:
             oracle_fail.append((i, msg))
 
     # 3. model vs implementation -------------------------------------------------------------
-    ok_idx = [i for i, o in enumerate(outs) if not (isinstance(o, dict) and 'harness_error' in o)]
+    ok_idx = [i for i, o in enumerate(outs) if not unusable(o)]
+    n_timeouts = sum(1 for o in outs if isinstance(o, dict) and 'harness_timeout' in o)
+    if n_timeouts:
+        ev_extra['harness_timeouts'] = n_timeouts
     sub_cases = [cases[i] for i in ok_idx]
     sub_outs = [outs[i] for i in ok_idx]
     t_coq = time.time()
@@ -331,7 +423,7 @@ def run_check(prop, tier, seed):
     nontriv = set()
     dist = {}
     for c, o in zip(cases, outs):
-        if isinstance(o, dict) and 'harness_error' in o:
+        if unusable(o):
             continue
         k = mod.kind_of(c, o) if hasattr(mod, 'kind_of') else c.get('kind', 'case')
         dist[k] = dist.get(k, 0) + 1
@@ -371,9 +463,10 @@ def run_check(prop, tier, seed):
         print(line)
     for path, suffix in violations:
         print('VIOLATION property=%s replay=%s%s' % (prop, path, suffix))
-    print('%s %s: theorems %d/%d, %d cases (%d non-trivial), %d evaluated in Coq, %d mismatches, %d oracle failures, %.1fs'
+    print('%s %s: theorems %d/%d, %d cases (%d non-trivial), %d evaluated in Coq, %d mismatches, %d oracle failures%s, %.1fs'
           % (prop, tier, th['discharged'], th['obligations'], len(cases), len(nontriv), n_eval, len(mismatches),
-             len(oracle_fail), time.time() - t0))
+             len(oracle_fail), (', %d timed out' % ev_extra['harness_timeouts']) if ev_extra.get('harness_timeouts') else '',
+             time.time() - t0))
     return 1 if violations else 0
 
 
@@ -389,7 +482,7 @@ def run_replay(path):
         return 1
     case = payload['case']
     out = _impl_worker(case)
-    msg = None if 'harness_error' in out else mod.oracle(case, out)
+    msg = None if unusable(out) else mod.oracle(case, out)
     build_library()
     n, bad, errors, skipped = coq_eval(mod, prop, [case], [out], tag='replay')
     print('replay %s: observed=%s' % (path, json.dumps(out, default=str)[:1500]))
